@@ -19,6 +19,19 @@ EXTENDS Integers, Sequences, FiniteSets
 EOFc == -1
 SpaceChars == {9, 10, 11, 12, 13, 32, 133, 160, 5760, 8232, 8233, 8239, 8287, 12288} \cup (8192..8202)
 IsSpaceC(c) == c \in SpaceChars
+\* The statements name spaces, tabs and newlines as blanks; the code takes every Unicode white space.  Texts that contain
+\* one of the other blanks, an invisible character (byte-order mark, zero-width space, soft hyphen, word joiner) or a digit
+\* of another script are "exotic": a crd that treats those characters differently (blanks only ASCII, a BOM skipped, ...)
+\* still is what the statements describe, so for such texts the checks claim agreement only where both sides accept.
+PlainBlanks == {9, 10, 13, 32}
+ExoticChars == (SpaceChars \ PlainBlanks) \cup {65279, 8203, 8204, 8205, 173, 8288} \cup (65296..65305) \cup (2406..2415) \cup (1632..1641)
+Exotic(s) == \E i \in 1..Len(s) : s[i] \in ExoticChars
+\* blanks around a setting's name or value inside {...}: whether they belong to the token is not documented
+RECURSIVE TrimL(_)
+TrimL(s) == IF s # <<>> /\ s[1] \in SpaceChars THEN TrimL(Tail(s)) ELSE s
+RECURSIVE TrimR(_)
+TrimR(s) == IF s # <<>> /\ s[Len(s)] \in SpaceChars THEN TrimR(SubSeq(s, 1, Len(s) - 1)) ELSE s
+Trim(s) == TrimL(TrimR(s))
 IsDigitC(c) == c >= 48 /\ c <= 57
 SymbolStop == {47, 91, 95, 59, 61}            \* / [ _ ; =
 MetaStop == {123, 125, 61, 44}                \* { } = ,
